@@ -16,6 +16,8 @@ FORM_TMPL = {
     "imp": "{mn}", "imm": "{mn} #{e}", "dir": "{mn} {e}", "dirx": "{mn} {e},x", "diry": "{mn} {e},y",
     "indx": "{mn} ({e},x)", "indy": "{mn} ({e}),y", "ind": "{mn} ({e})",
     "indy_inner": "{mn} ({e},y)", "indx_outer": "{mn} ({e}),x",
+    "indx_y": "{mn} ({e},x),y", "indx_x": "{mn} ({e},x),x", "indy_x": "{mn} ({e},y),x", "indy_y": "{mn} ({e},y),y",
+    "imm_x": "{mn} #{e},x", "imm_y": "{mn} #{e},y",
 }
 
 
